@@ -259,7 +259,7 @@ pub unsafe extern "C" fn waitpid(pid: i32, status: *mut i32, flags: i32) -> i32 
         if !tick() {
             return fail_unwind() as i32;
         }
-        let rep = sim(&format!("waitpid {}", ((flags & libc::WNOHANG) != 0) as i32));
+        let rep = sim(&format!("waitpid {} {}", ((flags & libc::WNOHANG) != 0) as i32, flags & !libc::WNOHANG));
         if rep == "zero" {
             return 0;
         }
